@@ -281,9 +281,14 @@ theorem immJ_int (w : BitVec 32) :
   imm_arith
 
 theorem immU_int (w : BitVec 32) :
-    Bits.sint ((fld w 12 20).1 * 2 ^ 12, 32) = (w.extractLsb' 12 20 ++ 0#12).toInt := by
+    (fld w 12 20).sint * 2 ^ 12 = (w.extractLsb' 12 20 ++ 0#12).toInt := by
   have := w.isLt
   imm_arith
+
+theorem immU_nat (w : BitVec 32) :
+    (fld w 12 20).1 * 2 ^ 12 = (w.extractLsb' 12 20 ++ 0#12).toNat := by
+  simp only [fld, toNat_append_add, BitVec.toNat_ofNat]
+  omega
 
 theorem ofInt_immI (n : Nat) (w : BitVec 32) : BitVec.ofInt n (fld w 20 12).sint = immI n w := by
   rw [immI_int]; rfl
@@ -296,8 +301,14 @@ theorem ofInt_immJ (n : Nat) (w : BitVec 32) :
     BitVec.ofInt n (((((fld w 21 10).cat (fld w 20 1)).cat (fld w 12 8)).cat (fld w 31 1)).sint * 2) = immJ n w := by
   rw [immJ_int]; rfl
 theorem ofInt_immU (n : Nat) (w : BitVec 32) :
-    BitVec.ofInt n (Bits.sint ((fld w 12 20).1 * 2 ^ 12, 32)) = immU n w := by
+    BitVec.ofInt n ((fld w 12 20).sint * 2 ^ 12) = immU n w := by
   rw [immU_int]; rfl
+
+/-- RV32I builds the U-immediate as an unsigned 32-bit constant: the same 32 bits -/
+theorem ofInt_immU32 (w : BitVec 32) :
+    BitVec.ofInt 32 (((fld w 12 20).1 * 2 ^ 12 : Nat) : Int) = immU 32 w := by
+  rw [BitVec.ofInt_natCast, immU_nat, BitVec.ofNat_toNat]
+  simp [immU]
 
 
 theorem storeBytes_mod {n} (mem : BitVec n → BitVec 8) (a : BitVec n) (v k : Nat) :
@@ -355,7 +366,12 @@ theorem shamtW_rv64 (w : BitVec 32) : (fld w 20 5).fst % 18446744073709551616 = 
   omega
 
 theorem ofInt_immU' (n : Nat) (w : BitVec 32) :
-    BitVec.ofInt n (Bits.sint ((fld w 12 20).1 * 4096, 32)) = immU n w := ofInt_immU n w
+    BitVec.ofInt n ((fld w 12 20).sint * 4096) = immU n w := ofInt_immU n w
+theorem ofInt_immU32' (w : BitVec 32) :
+    BitVec.ofInt 32 (((fld w 12 20).1 : Int) * 4096) = immU 32 w := by
+  have := ofInt_immU32 w
+  rw [Int.natCast_mul] at this
+  exact this
 
 theorem ite_bv_bool2bv (n : Nat) (c : Bool) (sf : Bool) :
     (if c = true then bv (1#n) sf else bv (0#n) sf) = bv (bool2bv n c) sf := by
@@ -380,7 +396,7 @@ macro "rv_eval" : tactic => `(tactic|
   simp [Isa.xlen, Isa.shBits, operands, accessBits, evalE, readOpnd_reg, readOpnd_cstOf, readOpnd_mem8, readOpnd_mem16,
         readOpnd_mem32, readOpnd_mem64, memAddr, mkCst_bv, mk_eq_bv, setIf, w32, tstV_bit, sextV_bv, zextV_bv,
         slcV_bv, sextV_bv_same, zextV_bv_same, ite_bv_bool2bv, ofInt_immI, ofInt_immS, ofInt_immB, ofInt_immJ,
-        ofInt_immU', and_31, and_63, shamt_rv32, shamt_rv64, shamtW_rv64, extract0_eq_lo32, lo32_immI64])
+        ofInt_immU', ofInt_immU32', and_31, and_63, shamt_rv32, shamt_rv64, shamtW_rv64, extract0_eq_lo32, lo32_immI64])
 
 theorem storeBytes_mod1 {n} (mem : BitVec n → BitVec 8) (a : BitVec n) (v : Nat) :
     storeBytes mem a (v % 256) 1 = storeBytes mem a v 1 := storeBytes_mod mem a v 1
@@ -397,16 +413,16 @@ theorem ofInt_neg2 (n : Nat) : BitVec.ofInt n (-2) = ~~~1#n := by
 macro "rv_run" : tactic => `(tactic|
   simp [semIdeal, expected, exec, execAll, execStmt, exec_npc, npc, writeLoc_reg_bv, writeLoc_pc_bv, set_withPc,
         operands, evalE, readOpnd_reg, readOpnd_cstOf, mkCst_bv, mk_eq_bv,
-        ofInt_immI, ofInt_immJ, ofInt_immU', ofInt_neg2])
+        ofInt_immI, ofInt_immJ, ofInt_immU', ofInt_immU32', ofInt_neg2])
 
 /-! ### one theorem per base mnemonic: the expected DSL term means what the manual says -/
 section
 variable (isa : Isa) (w : BitVec 32) (σ : State isa.xlen)
 
-theorem ok_LUI : semIdeal (expected isa .LUI) (operands isa .LUI w) σ = some (exec isa .LUI w σ) :=
-  semIdeal_wr _ rfl (by rv_eval)
+theorem ok_LUI : semIdeal (expected isa .LUI) (operands isa .LUI w) σ = some (exec isa .LUI w σ) := by
+  revert σ; cases isa <;> intro σ <;> exact semIdeal_wr _ rfl (by rv_eval)
 theorem ok_AUIPC : semIdeal (expected isa .AUIPC) (operands isa .AUIPC w) σ = some (exec isa .AUIPC w σ) := by
-  by_cases h : fRd w = 0 <;> rv_run <;> simp [h]
+  revert σ; cases isa <;> intro σ <;> by_cases h : fRd w = 0 <;> rv_run <;> simp [h]
 theorem ok_JAL : semIdeal (expected isa .JAL) (operands isa .JAL w) σ = some (exec isa .JAL w σ) := by
   by_cases h : fRd w = 0 <;> rv_run <;> simp [h]
 theorem ok_JALR : semIdeal (expected isa .JALR) (operands isa .JALR w) σ = some (exec isa .JALR w σ) := by
